@@ -336,6 +336,18 @@ def gen_history(scn, key):
     for i in range(rng.randint(2, 4)):
         kind = "first" if i == 0 else rng.choice(["same", "layout", "layout", "flip", "flip-inplace"] + (["retime-inplace"] * 3 if op == "spi" and cur["params"].get("cal") else []))
         v = dict(cur)
+        if kind in ("same", "flip") and i > 0 and cur.get("secondary") and rng.random() < 0.5:
+            # the user edits a secondary raster (numpy-backed: IN PLACE, same object, same identity;
+            # dask-backed: a new lazy object) -- same value set, other positions
+            kind = "aux-edit"
+            v["secondary"] = dict(cur["secondary"])
+            name = rng.choice(sorted(cur["secondary"]))
+            a = S.j2arr(cur["secondary"][name])
+            flat = a.reshape(-1).copy()
+            prm = list(range(flat.size))
+            rng.shuffle(prm)
+            v["secondary"][name] = S.arr2j(flat[prm].reshape(a.shape))
+            v["_edited"] = name
         if kind == "retime-inplace":
             # the time axis of the same object is re-labelled (shifted by k dekads); the calibration
             # DATES stay the same, so they now sit at other positions (s51)
@@ -387,6 +399,18 @@ def check_history(scn, key, ref_cache):
     cube = None
     for i, (st, (exp, exp_exc)) in enumerate(zip(steps, expected)):
         v = st["scn"]
+        if st["kind"] == "aux-edit":
+            name = v["_edited"]
+            fresh = S.build_secondary(v, name)
+            if base["secondary_backing"].get(name) == "dask":
+                ch = base["chunks"]
+                new_obj = fresh.chunk({"y": tuple(ch["y"]), "x": tuple(ch["x"])})
+                new_obj.attrs.update(aux[name].attrs)
+                aux[name] = new_obj
+            else:
+                aux[name].data[...] = fresh.transpose(*aux[name].dims).data
+            aux["__watch__"][name] = fresh.transpose(*aux[name].dims).data if base["secondary_backing"].get(name) == "dask" else aux[name].data
+            before = S.input_digests(aux["__watch__"])
         if st["kind"] == "retime-inplace" and cube is not None and list(cube.dims) == list(v["layout"]):
             fresh = S.build_cube(v)
             cube["time"] = fresh["time"].values  # same DataArray object (and accessor), new labels
